@@ -518,7 +518,14 @@ func mutations(c ctx) {
 		base64.StdEncoding.EncodeToString([]byte(v)), base64.RawURLEncoding.EncodeToString([]byte(v)))
 	// values minted under another key / salt / encoding for the same server
 	for _, other := range []encoding{{"aes-other-key", aes(key16b, 0), true, 0}, {"hash-other-salt", func() stickycookie.CookieValue { return &stickycookie.HashValue{Salt: "zzz"} }, false, 0}} {
-		muts = append(muts, other.mk().Get(su))
+		fv := other.mk().Get(su)
+		if fv == v && strings.HasPrefix(c.enc.name, "hash") {
+			// a value minted under ANOTHER salt is, by the property, not a valid cookie of this balancer - it
+			// cannot be told apart from the valid one if it is the same string
+			c.violate("foreign-salt-mints-valid-cookie", fmt.Sprintf("a hash encoding with salt %q minted %q for %s - exactly the cookie the configured encoding (%s) issues", "zzz", fv, c.server, c.enc.name), map[string]any{"mutation_of": "cookie"})
+			return
+		}
+		muts = append(muts, fv)
 	}
 	for _, m := range muts {
 		if m == v {
